@@ -15,6 +15,11 @@
 (* takes on the LOGGED operands (at 10^-9 where they fit), and must be     *)
 (* enabled in the model: a decision the model's values decide beyond the   *)
 (* slack is demanded, a near-tie is free.                                  *)
+(* Cases of kind "bcd1" are fits of MultiTaskElasticNet on ONE target      *)
+(* column: the block solver (block_coordinate_descent_with_intercept,      *)
+(* duality_gap_mtl) must run through the same state machine (the harness   *)
+(* records its bcd events under the cd names); only d_w_max differs        *)
+(* (change of the row norm).                                               *)
 (* A tree without the hook (inp.hook = 0): no step events; the model runs  *)
 (* on its own (near-ties are explored both ways) and only the published    *)
 (* coefficients / intercept / gap / sweep count are compared.              *)
@@ -42,6 +47,9 @@ In   == Case.inp
 NEv  == Len(Case.ev)
 Ev   == Case.ev[e]
 Hook == In.hook = 1
+Block == Case.kind = "bcd1"      \* MultiTaskElasticNet on one target column (its bcd events are logged under the cd names)
+\* the named step event of the solver the case runs (block = 1: logged by the block solver as bcd.<name>)
+HasStep(name) == e <= NEv /\ Ev.ev = name /\ Ev.block = (IF Block THEN 1 ELSE 0)
 HasEv(name) == e <= NEv /\ Ev.ev = name
 Coded == "gap_check_one_sweep_early" \in Devs
 LastK == IF Coded THEN pr.maxit - 1 ELSE pr.maxit
@@ -63,7 +71,7 @@ TraceInit ==
   /\ mg = {} /\ lg = <<>> /\ used = {} /\ tag = ""
 
 Start ==
-  /\ tag = "" /\ ph = "start" /\ HasEv("cd.start")
+  /\ tag = "" /\ ph = "start" /\ HasStep("cd.start")
   /\ Ev.n = NN(pr) /\ Ev.p = NP(pr) /\ Ev.t = 1 /\ Ev.maxit = pr.maxit /\ Ev.icpt = (IF pr.icpt THEN 1 ELSE 0)
   /\ Len(Ev.norms) = NP(pr)
   /\ \A q \in 1..NP(pr) : CloseT(Ev.norms[q], Nrm(pr, q) * S, 0)
@@ -83,14 +91,16 @@ Coord ==
          corr == FCorr(pr, st, jj)
          ns == FCoord(pr, st, jj)
      IN /\ IF Hook
-           THEN /\ HasEv("cd.coord") /\ Ev.sweep = kk /\ Ev.j = jj - 1 /\ Ev.skip = (IF skip THEN 1 ELSE 0)
+           THEN /\ HasStep("cd.coord") /\ Ev.sweep = kk /\ Ev.j = jj - 1 /\ Ev.skip = (IF skip THEN 1 ELSE 0)
                 /\ Len(Ev.old) = 1 /\ Len(Ev.new) = 1 /\ Len(Ev.r) = NN(pr)
                 /\ CloseT(Ev.old[1], st.w[jj], SlW) /\ CloseT(Ev.new[1], ns.w[jj], SlW)
                 /\ IF skip THEN Ev.corr = <<>> ELSE Len(Ev.corr) = 1 /\ CloseT(Ev.corr[1], corr, SlR * Max2(1, Nrm(pr, jj)))
                 /\ \A i \in 1..NN(pr) : CloseT(Ev.r[i], ns.r[i], SlR)
            ELSE TRUE
         /\ st' = ns
-        /\ dw' = IF skip THEN dw ELSE Max2(dw, Abs(ns.w[jj] - st.w[jj]))
+        \* the block solver measures the change of the row NORM: | |w_j'| - |w_j| |
+        /\ dw' = IF skip THEN dw
+                 ELSE Max2(dw, IF Block THEN Abs(Abs(ns.w[jj]) - Abs(st.w[jj])) ELSE Abs(ns.w[jj] - st.w[jj]))
         /\ wm' = IF skip THEN wm ELSE Max2(wm, Abs(ns.w[jj]))
         \* the new coefficient is exactly 0.0 in the code too: skipped, or thresholded with a margin
         /\ allz' = (allz /\ (skip \/ Abs(corr) + SlR * Nrm(pr, jj) < FL1(pr)))
@@ -103,7 +113,7 @@ Icpt ==
   /\ tag = "" /\ ph = "icpt"
   /\ LET ns == FIcpt(pr, st) IN
      /\ IF Hook
-        THEN /\ HasEv("cd.icpt") /\ Ev.sweep = kk
+        THEN /\ HasStep("cd.icpt") /\ Ev.sweep = kk
              /\ Len(Ev.rmean) = 1 /\ Len(Ev.shift) = 1 /\ Len(Ev.r) = NN(pr)
              /\ CloseT(Ev.rmean[1], FMean(pr, st), SlR) /\ CloseT(Ev.shift[1], ns.b, SlR)
              /\ \A i \in 1..NN(pr) : CloseT(Ev.r[i], ns.r[i], SlR)
@@ -140,7 +150,7 @@ Advance(conv) ==
 Dev(fired) == IF Coded /\ kk >= pr.maxit - 1 THEN used \cup {"gap_check_one_sweep_early"} ELSE used
 
 SweepHook ==
-  /\ tag = "" /\ ph = "sweep" /\ Hook /\ HasEv("cd.sweep")
+  /\ tag = "" /\ ph = "sweep" /\ Hook /\ HasStep("cd.sweep")
   /\ Ev.sweep = kk /\ Ev.pre \in {0, 1} /\ Ev.dec \in {0, 1, 2}
   /\ CloseT(Ev.dwmax, dw, SlD) /\ CloseT(Ev.wmax, wm, SlW) /\ Enc9(Ev.dwmax) /\ Enc9(Ev.wmax)
   /\ (PreSure => Ev.pre = 1) = TRUE /\ (PreNever => Ev.pre = 0) = TRUE
@@ -174,7 +184,7 @@ SweepFree ==
   /\ UNCHANGED <<c, e, pr, st, lg, tag>>
 
 End ==
-  /\ tag = "" /\ ph = "end" /\ HasEv("cd.end")
+  /\ tag = "" /\ ph = "end" /\ HasStep("cd.end")
   /\ Ev.steps = kk /\ Ev.logged = kk /\ Ev.gap = lg
   /\ ph' = "fit" /\ e' = e + 1
   /\ UNCHANGED <<c, pr, kk, jj, st, dw, wm, allz, mg, lg, used, tag>>
